@@ -34,3 +34,4 @@ def check(ctx):
     ctx.floor("HERM", 1)
     from ..rules import observables
     observables.hamiltonian_structure(ctx)
+    step.sv_initial_hamiltonian(ctx)
